@@ -117,6 +117,12 @@ func (f *fieldSelectionMergingVisitor) EnterField(ref int) {
 	fieldDefinitionTypeNode := f.definition.FieldDefinitionTypeNode(definition)
 	if fieldDefinitionTypeNode.Kind != ast.NodeKindScalarTypeDefinition {
 
+		// SameResponseShape: a scalar never has the shape of an enum or of a type with selections
+		if scalars := f.ScalarRequirementsByPathField(path, objectName); len(scalars) != 0 {
+			f.stopWithTypesMismatch(objectName, f.scalarRequirements[scalars[0]].fieldType, fieldType)
+			return
+		}
+
 		matchedRequirements := f.NonScalarRequirementsByPathField(path, objectName)
 		hasDifferentKindInRequirements := false
 		for _, i := range matchedRequirements {
@@ -127,6 +133,16 @@ func (f *fieldSelectionMergingVisitor) EnterField(ref int) {
 				// Perhaps this should be remove altogether?
 				if !objectName.Equals(f.nonScalarRequirements[i].objectName) {
 					f.StopWithExternalErr(operationreport.ErrResponseOfDifferingTypesMustBeOfSameShape(objectName, f.nonScalarRequirements[i].objectName))
+					return
+				}
+				// SameResponseShape: the two types are unwrapped in lockstep and what is left is
+				// the same type if either of them is a leaf
+				ignoreNullability := f.relaxNullabilityCheck &&
+					!f.potentiallySameObject(f.nonScalarRequirements[i].enclosingTypeDefinition, f.EnclosingTypeDefinition)
+				isLeaf := fieldDefinitionTypeNode.Kind == ast.NodeKindEnumTypeDefinition ||
+					f.nonScalarRequirements[i].fieldTypeDefinitionNode.Kind == ast.NodeKindEnumTypeDefinition
+				if !f.typesHaveSameShape(f.nonScalarRequirements[i].fieldTypeRef, fieldType, isLeaf, ignoreNullability) {
+					f.stopWithTypesMismatch(objectName, f.nonScalarRequirements[i].fieldTypeRef, fieldType)
 					return
 				}
 			} else {
@@ -195,6 +211,12 @@ func (f *fieldSelectionMergingVisitor) EnterField(ref int) {
 		return
 	}
 
+	// SameResponseShape: a scalar never has the shape of an enum or of a type with selections
+	if nonScalars := f.NonScalarRequirementsByPathField(path, objectName); len(nonScalars) != 0 {
+		f.stopWithTypesMismatch(objectName, f.nonScalarRequirements[nonScalars[0]].fieldTypeRef, fieldType)
+		return
+	}
+
 	matchedRequirements := f.ScalarRequirementsByPathField(path, objectName)
 	hasDifferentKindInRequirements := false
 
@@ -246,6 +268,50 @@ func (f *fieldSelectionMergingVisitor) EnterField(ref int) {
 		enclosingTypeDefinition: f.EnclosingTypeDefinition,
 		fieldTypeDefinitionNode: fieldDefinitionTypeNode,
 	})
+}
+
+// typesHaveSameShape unwraps two types in lockstep: list and non-null levels have to agree. Two leaf
+// types additionally have to be the same type, two composite types are compared by their selections.
+func (f *fieldSelectionMergingVisitor) typesHaveSameShape(left, right int, leaf, ignoreNullability bool) bool {
+	if leaf {
+		if ignoreNullability {
+			return f.definition.TypesAreCompatibleIgnoringNullability(left, right)
+		}
+		return f.definition.TypesAreCompatibleDeep(left, right)
+	}
+	for {
+		if ignoreNullability {
+			if f.definition.Types[left].TypeKind == ast.TypeKindNonNull {
+				left = f.definition.Types[left].OfType
+				continue
+			}
+			if f.definition.Types[right].TypeKind == ast.TypeKindNonNull {
+				right = f.definition.Types[right].OfType
+				continue
+			}
+		}
+		if f.definition.Types[left].TypeKind != f.definition.Types[right].TypeKind {
+			return false
+		}
+		if f.definition.Types[left].TypeKind == ast.TypeKindNamed {
+			return true
+		}
+		left, right = f.definition.Types[left].OfType, f.definition.Types[right].OfType
+	}
+}
+
+func (f *fieldSelectionMergingVisitor) stopWithTypesMismatch(objectName ast.ByteSlice, leftType, rightType int) {
+	left, err := f.definition.PrintTypeBytes(leftType, nil)
+	if err != nil {
+		f.StopWithInternalErr(err)
+		return
+	}
+	right, err := f.definition.PrintTypeBytes(rightType, nil)
+	if err != nil {
+		f.StopWithInternalErr(err)
+		return
+	}
+	f.StopWithExternalErr(operationreport.ErrTypesForFieldMismatch(objectName, left, right))
 }
 
 // potentiallySameObject reports whether two enclosing type definitions could apply
